@@ -239,6 +239,82 @@ def _doc_job(jobs):
     return acc
 
 
+FRAMES = [('**kern', '4c'), ('**text', 'la'), ('**dynam', 'p'), ('**kern\t**text', '4c\tla')]
+
+
+_STRUCT = {x['src'] for x in A.KDATA + A.RDATA + A.KINT + A.KINT_KEY}
+
+
+def cell_corpus(tier):
+    """C18's corpus + every barline of the alphabet with the invisibility flag; without exclusive interpretations (a '**' cell below the header is not
+    well-formed Humdrum) and without the two separator characters (DESIGN 2.7)"""
+    import re
+    from .c18 import corpus
+    hidden = []
+    for b in A.BARS:
+        m = re.match(r'^(==?)(\d*)(.*)$', b[0])
+        hidden.append(m.group(1) + m.group(2) + '-' + m.group(3))
+    out, seen = [], set()
+    for t in corpus(tier) + hidden:
+        if t.startswith('**') or '@' in t or '·' in t or t in seen:
+            continue
+        seen.add(t)
+        out.append(t)
+    return out
+
+
+def _cell_job(job):
+    """every cell text of the token corpus (one per grammar alternative, barlines with every mark incl. the invisibility flag, look-alikes, all short
+    strings) inside a small frame under several spine types: WHEN the frame imports without errors, the fixed-point laws must hold (differential oracle)"""
+    lo, hi, tier = job
+    acc = Acc()
+    C = cell_corpus(tier)
+    for t in C[lo:hi]:
+        for fi, (hdr, filler) in enumerate(FRAMES):
+            if hdr.startswith('**kern') and not (t in _STRUCT or t.startswith(('*', '=', '!'))):
+                continue            # in a **kern column only tokens of the structured alphabets: a glued string like 'rck' is accepted by the grammar
+                #                     but is no note, rest or chord of the property's domain
+            ncol = hdr.count('\t') + 1
+            row = t if ncol == 1 else t + '\t' + ('.' if not t.startswith(('*', '=', '!')) else t if t.startswith('=') else t[0])
+            text = f'{hdr}\n' + '\t'.join(['*clefG2'] + ['*'] * (ncol - 1)) + f'\n{filler}\n{row}\n{filler}\n' + '\t'.join(['*-'] * ncol) + '\n'
+            acc.count('evaluations')
+            try:
+                d, e = kp.loads(text)
+            except Exception:
+                continue            # not a document of the domain (the cell changes the spine structure)
+            if e:
+                continue            # "imports without errors" is the property's premise
+            acc.state(('cell', t, fi))
+            r = fixed_point(acc, text, {'text': text, 'cell': t, 'frame': hdr, 'cls': 'cell-corpus'}, 'cell-corpus')
+            if r and t not in r[0].split('\n')[3:4]:
+                acc.nontriv(('cell', t, fi))      # the normal form of the cell differs from how it was written
+    return acc
+
+
+APART = 'staff-change-mark-written-apart-from-the-slur-tie-or-beam-it-combines-with'
+
+
+def check_apart(acc):
+    """'<' and '>' combine with a slur, tie or beam mark written directly before them (one grammar unit, DESIGN 2.7).  Written APART from it they are two
+    signifiers; the fixed-point laws still apply to such a note (it imports without errors)."""
+    for b in ['(', '[', '_', ']', '<', '>', 'L', 'J', 'K', 'k', '&(', ')']:
+        for mk in ['<', '>']:
+            if b == mk:
+                continue
+            for t in (mk + '4c' + b, b + '4c' + mk, '4c' + b + mk, '4c' + mk + b, mk + b + '4c', '4c' + mk + ';' + b):
+                text = f'**kern\n*clefG2\n4d\n{t}\n4e\n*-\n'
+                acc.count('evaluations')
+                try:
+                    d, e = kp.loads(text)
+                except Exception:
+                    continue
+                if e:
+                    continue
+                acc.state(('apart', t))
+                acc.nontriv(('apart', t))
+                fixed_point(acc, text, {'text': text, 'cell': t, 'cls': APART}, APART)
+
+
 def run(ctx):
     quick = ctx.quick
     ctx.rule = ('(a) every abstract note x every written variant of its signifier set (order, slot, doubling); (b) all row sequences up to the depth bound and all <=k '
@@ -256,6 +332,10 @@ def run(ctx):
         jobs += list(D.deviation_docs([['**kern'], ['**text', '**kern', '**kern']], 1, (ctx.seed + 3,)))
     else:
         jobs += list(D.deviation_docs(hdrs[:6], 2, (ctx.seed + 3,)))
+    check_apart(ctx)
+    nc = len(cell_corpus(ctx.tier))
+    ctx.bounds['cell_corpus'] = {'cells': nc, 'frames': [f[0] for f in FRAMES]}
+    ctx.pmap(_cell_job, [(lo, lo + 100, ctx.tier) for lo in range(0, nc, 100)], chunksize=1)
     ctx.pmap(_doc_job, [[j] for j in D.long_docs(ctx.seed)] + list(X.chunks(jobs, 150)), chunksize=1)
 
 
@@ -269,5 +349,5 @@ def replay(case):
         if not d.viol:      # the recorded document itself (batch packing may differ)
             fixed_point(d, case['text'], case, 'token-' + batch[0][0].replace('triple', 'note'))
         return d.viol
-    fixed_point(acc, case['text'], case, 'document')
+    fixed_point(acc, case['text'], case, case.get('cls', 'document'))
     return acc.viol
